@@ -1,10 +1,12 @@
 --------------------------- MODULE MCTrieCommit ---------------------------
 (* Model-checking / test-generation wrapper of TrieCommit.tla (C07).                      *)
-EXTENDS TrieCommit, Json
+EXTENDS TrieCommit, Json, Randomization
 
 CONSTANTS Mode,     \* "mc" | "edges" | "sim"
           Depth,    \* sim: number of steps per behaviour
-          MaxGen    \* sim: a behaviour is emitted once it holds this many commits (or Depth steps)
+          MaxGen,   \* sim: a behaviour is emitted once it holds this many commits (or Depth steps)
+          CommitWeight, \* sim: TLC picks successors uniformly; offer Commit this many times
+          NKeys         \* sim: number of randomly drawn keys offered per step (keeps the successor set small)
 
 VARIABLES act, hist
 
@@ -27,29 +29,31 @@ SetToSeq(S) == IF S = {} THEN <<>> ELSE LET x == CHOOSE y \in S : TRUE IN <<x>> 
 (* the minimal node set as a list of [path, del, hasprev] *)
 NSetJ(S) == SetToSeq({[path |-> e.path, del |-> e.blob = Deleted, hasprev |-> e.prev # None] : e \in S})
 
-CommitJ == [op |-> "commit", base |-> [kv |-> KVList(ckv), tree |-> TreeJ(CanonKV(ckv))],
+CommitJ(w) == [op |-> "commit", w |-> w, base |-> [kv |-> KVList(ckv), tree |-> TreeJ(CanonKV(ckv))],
             new |-> [kv |-> KVList(kv), tree |-> TreeJ(tree)], minset |-> NSetJ(nset')]
 
 Log == hist' = IF Mode = "sim" THEN Append(hist, act') ELSE hist
 
 MCInit == Init /\ act = [op |-> "init"] /\ hist = <<>>
 
+SimKeys == IF Mode = "sim" THEN RandomSubset(NKeys, Keys) ELSE Keys
+
 MCNext ==
-  \/ \E k \in Keys : \E v \in Vals : Put(k, v) /\ act' = [op |-> "put", k |-> k, v |-> v, kv |-> KVList(kv')] /\ Log
-  \/ \E k \in Keys : Del(k) /\ act' = [op |-> "del", k |-> k, v |-> 0, kv |-> KVList(kv')] /\ Log
-  \/ Commit /\ act' = CommitJ /\ Log
+  \/ \E k \in SimKeys : \E v \in Vals : Put(k, v) /\ act' = [op |-> "put", k |-> k, v |-> v, kv |-> KVList(kv')] /\ Log
+  \/ \E k \in SimKeys : Del(k) /\ act' = [op |-> "del", k |-> k, v |-> 0, kv |-> KVList(kv')] /\ Log
+  \/ \E w \in 1..CommitWeight : Commit /\ act' = CommitJ(w) /\ Log
 
 MCSpec == MCInit /\ [][MCNext]_mcvars
 
-View == <<kv, tree, ckv, pstore, hstore, nset>>
-
-(* the set of committed roots only matters for HashReadBackInv; bound it in exhaustive runs *)
-ViewNoRoots == <<kv, tree, ckv, pstore, nset>>
+(* nset is a function of the transition that produced it and is checked by the action      *)
+(* property CommitOK on every transition, so it need not distinguish states                 *)
+View == <<kv, tree, ckv, pstore, hstore, roots>>
 
 Edge == IF Mode = "edges" /\ act'.op = "commit" THEN PrintT(<<"EDGE", ToJson(act')>>) ELSE TRUE
 
-NCommits == Cardinality({i \in 1..Len(hist) : hist[i].op = "commit"})
-Emit == IF Mode = "sim" /\ (Len(hist) = Depth \/ (NCommits = MaxGen /\ hist[Len(hist)].op = "commit"))
-        THEN PrintT(<<"MBT", ToJson(hist)>>) ELSE TRUE
-SimStop == Len(hist) < Depth /\ ~(NCommits = MaxGen /\ hist[Len(hist)].op = "commit")
+NCommits(h) == Cardinality({i \in 1..Len(h) : h[i].op = "commit"})
+Done(h) == Len(h) = Depth \/ (Len(h) > 0 /\ NCommits(h) = MaxGen /\ h[Len(h)].op = "commit")
+Emit == IF Mode = "sim" /\ Done(hist) THEN PrintT(<<"MBT", ToJson(hist)>>) ELSE TRUE
+(* a behaviour ends with the first state that is Done (that state is still admitted, and emitted) *)
+SimStop == Len(hist) = 0 \/ ~Done(SubSeq(hist, 1, Len(hist) - 1))
 =============================================================================
